@@ -33,11 +33,15 @@ func gen(c *hmain.Ctx) {
 			jobs = append(jobs, &pipedrv.Job{Stream: stream, Case: pipedrv.GenCase(c.R, o)})
 		}
 	}
+	for i := 0; i < 16*c.Scale; i++ {
+		jobs = append(jobs, &pipedrv.Job{Stream: "timeout-vs-put", Case: pipedrv.TimeoutVsPut(2+2*(i%2), i%4 < 2, i%8 < 4)})
+	}
 	add("basic", pipedrv.FamBasic, 50)
 	add("hold", pipedrv.FamHold, 70)
 	add("discard-before-hold", pipedrv.FamDiscardBeforeHold, 50)
 	add("split", pipedrv.FamSplit, 25)
 	add("retry", pipedrv.FamRetry, 20)
+	add("commit-race", pipedrv.FamCommitRace, 6)
 	pipedrv.RunJobs(jobs, 40)
 	for _, j := range jobs {
 		c.W.Case(j.Stream, 0, j.Case, j.Obs, true)
